@@ -699,6 +699,10 @@ MEDDLY::dd_edge::iterator::iterator(const dd_edge &E, const minterm* _mask)
 MEDDLY::dd_edge::iterator::iterator(const dd_edge &E, unsigned (*RNG)(unsigned))
 {
     init_with_forest( E.getForest() );
+    if (!F) {
+        // Detached edge: end iterator.
+        return;
+    }
 
     mask = nullptr;
     root_ev = E.getEdgeValue();
@@ -848,6 +852,11 @@ void MEDDLY::dd_edge::iterator::restart(const dd_edge &E, const minterm* _mask)
 {
     if (F != E.getForest()) {
         throw error(error::FOREST_MISMATCH, __FILE__, __LINE__);
+    }
+    if (!F) {
+        // Detached edge: nothing to iterate over; stay an end iterator.
+        atEnd = true;
+        return;
     }
 
     mask = _mask;
